@@ -1,5 +1,6 @@
 """C19 - generator specifications parse back to the path and arguments that were written (structural clauses)."""
 import re
+import decisions
 import rule_scopes
 import guards
 
@@ -203,3 +204,4 @@ def run(ctx):
     ctx.run_rule('C19.4', 'T6', 'syntax tables: dispatch set, escape set, trimming and validation of trimmed values', r_syntax_tables, prog)
     ctx.run_rule('C19.5', 'T1', 'arguments reach the generator unchanged and in order', r_arguments_unchanged, prog)
     ctx.run_rule('C19.6', 'T13', 'conditions under which plugin_parser opens a pair, switches state, trims, rejects and returns (precondition ledger)', r_plugin_parser_preconditions, prog)
+    ctx.run_rule('C19.7', 'T6', 'rejection reasons, argument opening and no removal (decision table of plugin_parser)', decisions.r_plugin_parser_decisions, prog)
